@@ -575,6 +575,26 @@ func Poll() {
 	pointFull(KPoll, nil, nil, nil, 0)
 }
 
+// SpinHook, when set, is called each time a try-lock fails under the scheduler: waiting costs time (the virtual
+// clock registers itself here).
+var SpinHook func()
+
+// Spin is called by the shims when a TryLock / TryRLock fails: a caller that loops on a try-lock is waiting. Time
+// passes (SpinHook) and the thread is parked until some other thread has taken a step, like a poll.
+//
+//go:norace
+func Spin() {
+	if !active {
+		return
+	}
+
+	if SpinHook != nil {
+		SpinHook()
+	}
+
+	pointFull(KPoll, nil, nil, nil, 0)
+}
+
 // daemonFuncs lists enclosing functions whose go statements start background daemons
 // (janitor, items-count reporter). They are never started in instrumented builds; the harnesses
 // invoke the janitor's own cleanup function as an explicit operation instead (DESIGN §2.1).
